@@ -52,6 +52,7 @@ def handlers : List (String × (Case → String)) := [
   ("ctxpair", Drivers.Cancel.runCtxPair),
   ("lateuse", Drivers.Cancel.runLateUse),
   ("tdwait", Drivers.Cancel.runTdWait),
+  ("numtype", Drivers.Precision.runNumType),
   ("timed", Drivers.Timed.run),
   ("plugin", Drivers.Plugin.run),
   ("resub", Drivers.Resub.run),
